@@ -45,6 +45,11 @@ Inductive c16_case :=
 (* the interpreter's real text for a live exception (traceback.format_exception: marker lines,
    folding, suggestion and all; final newline removed) given to from_string *)
 | CaseFull (fs : list live_frame) (e : live_exc) (full : str) (parsed : res tb)
+(* the limit of from_traceback / print_exception (given as argument, or through
+   sys.tracebacklimit): the interpreter's entries and text for that limit, boltons' entries
+   (TracebackInfo.from_traceback(tb, limit).to_dict()) and what print_exception(..., limit) writes *)
+| CaseLim (fs : list live_frame) (e : live_exc) (k : Z) (via_sys : bool) (lim_fs : list live_frame)
+          (lim_interp : str) (o_frames : list cp_obs) (o_print : str)
 (* a call stack without exception: the interpreter's view of the frames below a probe
    (traceback.extract_stack(f, limit=k)), its text (format_stack; no header line), and
    boltons' view: TracebackInfo.from_frame(f, limit=k) via to_dict() and get_formatted(),
@@ -215,6 +220,40 @@ Definition stack_verdict (fs : list live_frame) (interp : str) (o_frames : list 
     str_eqb o_one (last_entry_text fs) && str_eqb o_cur (last_entry_text fs) in
   (agree, holds, false).
 
+(* ---- the limit parameter ---------------------------------------------------------------------- *)
+(* TracebackInfo.from_traceback: the first [limit] entries; nothing for a limit <= 0 *)
+Definition model_limit (k : Z) (cs : list callpoint) : list callpoint :=
+  if (k <=? 0)%Z then [] else firstn (Z.to_nat k) cs.
+(* traceback.extract_tb: the first [limit] entries, the LAST |limit| for a negative limit given as
+   argument; a negative sys.tracebacklimit counts as 0 *)
+Definition spec_limit (k : Z) (via_sys : bool) (fs : list live_frame) : list live_frame :=
+  if (0 <=? k)%Z then firstn (Z.to_nat k) fs
+  else if via_sys then [] else skipn (length fs - Z.to_nat (- k)) fs.
+
+Definition lim_verdict (fs : list live_frame) (e : live_exc) (k : Z) (via_sys : bool) (lim_fs : list live_frame)
+                       (lim_interp : str) (o_frames : list cp_obs) (o_print : str) : verdict :=
+  let cs := model_limit k (map cp_of_live fs) in
+  let ty := ei_type (ex_module e) (ex_qualname e) in
+  let agree :=
+    list_eqb cp_obs_eqb o_frames
+             (map (fun c => mkCpObs (cp_path c) (cp_lineno c) (cp_func c) (deferred_str P (cp_raw c))) cs) &&
+    str_eqb o_print (tbi_formatted P cs ++ ei_exc_only ty (ei_msg e) ++ M_nl) in
+  let T := std_tb P lim_fs e in
+  (* the traceback module's own text for that limit: no header line when no entry is left *)
+  let spec_text := (if is_nil lim_fs then exc_text (t_type T) (t_msg T) else std_text T) ++ NL in
+  let spec_valid :=
+    list_eqb (fun a b => str_eqb (lv_file a) (lv_file b) && (lv_lineno a =? lv_lineno b) &&
+                         str_eqb (lv_name a) (lv_name b) && str_eqb (lv_raw a) (lv_raw b))
+             lim_fs (spec_limit k via_sys fs) &&
+    is_some (hint_of e) && str_eqb lim_interp spec_text in
+  (* the property itself speaks of no limit; for a positive limit the same entries and the same text
+     as the traceback module are demanded, for limit <= 0 (where tbutils keeps no entry but still prints
+     the header line, and a negative argument means "the last ones" to the interpreter) only the tie *)
+  let holds :=
+    spec_valid &&
+    ((k <=? 0)%Z || negb (plain_exc e) || (frames_match lim_fs o_frames && str_eqb o_print spec_text)) in
+  (agree, holds, false).
+
 Definition c16_verdict (c : c16_case) : verdict :=
   match c with
   | CaseRT T ms text parsed printed => rt_verdict T ms text parsed printed
@@ -227,6 +266,7 @@ Definition c16_verdict (c : c16_case) : verdict :=
       (rtb_eqb (from_string P full) parsed,
        negb (wf P T && src_consistent (t_frames T) && is_some (hint_of e)) || rtb_eqb parsed (Ok T),
        false)
+  | CaseLim fs e k via_sys lim_fs lim_interp o_frames o_print => lim_verdict fs e k via_sys lim_fs lim_interp o_frames o_print
   | CaseStack fs interp o_frames o_fmt o_one o_cur => stack_verdict fs interp o_frames o_fmt o_one o_cur
   | CaseSess steps => sess_verdict steps
   | CaseRe which s groups =>
@@ -253,6 +293,9 @@ Definition c16_explain (c : c16_case) : c16_expl :=
   | CaseEI fs e _ _ => ExplEI (model_ei fs e) (std_text (std_tb P fs e)) (std_tb P fs e)
   | CaseRe which s _ => ExplRe (model_re which s) (spec_re which s)
   | CaseFull fs e full _ => ExplFull (from_string P full) (std_tb P fs e)
+  | CaseLim fs e k _ lim_fs _ _ _ =>
+      ExplStack (tbi_formatted P (model_limit k (map cp_of_live fs)) ++ ei_exc_only (ei_type (ex_module e) (ex_qualname e)) (ei_msg e) ++ M_nl)
+                (std_text (std_tb P lim_fs e) ++ NL)
   | CaseStack fs _ _ _ _ _ => ExplStack (tbi_formatted P (map cp_of_live fs)) (L_header ++ NL ++ spec_stack_lines fs)
   | CaseSess steps =>
       ExplSess (map (fun st => let '(fs, e, _, _, _) := st in
